@@ -476,71 +476,64 @@ def r2_mksetpv(ctx):
                 good = False
                 why = {"regime": p.describe(), "mask used": _show(r[2])}
         ctx.check(good, f"mksetpv resolves a string `{nm}` through mkusetmask", fn, why)
-    # refusal: every regime in which some DOF is in minor but not in major ends in the raise
-    viol_forms = []
-    refusal_ok = True
-    detail = None
-    undecidable = None
-    src_rows = roles if ok else []
-    for p, rn, rj, _, _ in src_rows:
+    # refusal: every regime in which some DOF is in minor but not in major ends in the raise.  A test any(f(pvminor, pvmajor)) /
+    # all(f(...)) is decided by the truth table of f over (in minor, in major): it is the containment test iff f == minor and not major
+    refusal_ok, detail, undecidable = True, None, None
+    for p, rn, rj, _, _ in (roles if ok else []):
         A, B = app(p.ret, "idx")
-        viol = F.fn("any", _binop_and(F.fn("invert", B), A))
-        d = p.decided(viol)
-        if d is None:
-            viol = F.fn("any", F.fn("idx", A, F.fn("invert", B)))        # pvminor[~pvmajor].any()
-            d = p.decided(viol)
+        d = None                    # truth of `some DOF is in minor and not in major` on this path
+        wrong, opaque = None, None
+        for c, dd, node in p.atoms():
+            if c is None or not (contains(c, A) or contains(c, B)):
+                continue
+            red = "any" if app(c, "any") else ("all" if app(c, "all") else None)
+            tt = _truth_table(app(c, red)[0], A, B) if red else None
+            if tt is None:
+                opaque = node
+            elif red == "any" and tt == (False, False, True, False):
+                d = dd
+            elif red == "all" and tt == (True, True, False, True):
+                d = not dd
+            else:
+                wrong = (node, red, tt)
         if d is False:
             continue
         if d is None:
-            other = [node for c, _, node in p.atoms() if c is not None and (contains(c, A) or contains(c, B))]
-            if p.decided(F.fn("any", _binop_and(F.fn("invert", A), B))) is not None:
+            if wrong is not None:
                 refusal_ok = False
-                detail = {"regime": p.describe(), "found": "the test is on major-not-minor DOF; a minor set outside the major set is not refused"}
-            elif other:
-                undecidable = (p, [(None, None, other[0])])
+                detail = {"regime": p.describe(), "test": ast.unparse(wrong[0])[:120],
+                          "truth table over (minor, major) = (0,0) (0,1) (1,0) (1,1)": [wrong[1]] + list(wrong[2]), "needed": "any(minor and not major)"}
+            elif opaque is not None:
+                undecidable = (p, opaque)
             else:
                 refusal_ok = False
-                detail = {"regime": p.describe(), "missing test": _show(viol)}
+                detail = {"regime": p.describe(), "missing test": "any(~pvmajor & pvminor)"}
             continue
         # the containment test was true and the function still returned: some other test kept it from raising
-        extra = []
-        for c, dd, node in p.atoms():
-            if c is None or same(c, viol) or (_is_call(c, ("isinstance",), ["obj", "cls"]) is not None):
-                continue
-            extra.append((c, dd, node))
-        fine = False
-        for c, dd, node in extra:
+        extra = [(c, dd, node) for c, dd, node in p.atoms()
+                 if c is not None and not contains(c, A) and not contains(c, B) and _is_call(c, ("isinstance",), ["obj", "cls"]) is None]
+
+        def mask_short(c, dd, inner, outer):
+            # truth(inner mask & ~outer mask) is False: the inner mask has no bit outside the outer mask
             b = app(c, "mask:BitAnd")
-            if b and dd is False:
-                # (minor mask & ~major mask) == 0: the minor mask has no bit outside the major mask, so no DOF can be in minor only
-                for x, y in ((b[0], b[1]), (b[1], b[0])):
-                    iy = app(y, "invert")
-                    if iy and same(x, rn[2]) and same(iy[0], rj[2]):
-                        fine = True
-        if fine:
-            continue
-        swapped_short = False
-        for c, dd, node in extra:
-            b = app(c, "mask:BitAnd")
-            if b and dd is False:
-                for x, y in ((b[0], b[1]), (b[1], b[0])):
-                    iy = app(y, "invert")
-                    if iy and same(x, rj[2]) and same(iy[0], rn[2]):
-                        swapped_short = True
-        if swapped_short or not extra:
+            if not (b and dd is False):
+                return False
+            return any(bool(app(y, "invert")) and same(x, inner) and same(app(y, "invert")[0], outer) for x, y in ((b[0], b[1]), (b[1], b[0])))
+
+        if any(mask_short(c, dd, rn[2], rj[2]) for c, dd, _ in extra):
+            continue                # minor mask inside major mask: no DOF can be in minor only, the regime is empty
+        if not extra or any(mask_short(c, dd, rj[2], rn[2]) for c, dd, _ in extra):
             refusal_ok = False
             detail = {"regime": p.describe(), "consequence": "a minor set that spills outside the major set is not refused "
                       "(e.g. major 'b', minor 'a' with a q-set DOF in the table: major & ~minor == 0)"}
         else:
-            undecidable = (p, extra)
+            undecidable = (p, extra[0][2])
     if ok:
-        raising = [p for p in paths if p.raised is not None]
-        if not raising:
+        if not [p for p in paths if p.raised is not None]:
             refusal_ok = False
             detail = detail or "no regime ends in a raise"
         if undecidable is not None and refusal_ok:
-            ctx.error("mksetpv: the refusal depends on a test this rule cannot interpret", undecidable[1][0][2],
-                      {"regime": undecidable[0].describe()})
+            ctx.error("mksetpv: the refusal depends on a test this rule cannot interpret", undecidable[1], {"regime": undecidable[0].describe()})
         else:
             ctx.check(refusal_ok, "mksetpv raises when some minor-set DOF is outside the major set (~major & minor)", fn, detail)
     # result: minor restricted to major, in table order
@@ -549,9 +542,33 @@ def r2_mksetpv(ctx):
               None if ok else {"returned": _show(bad[0].ret), "regime": bad[0].describe()})
 
 
-def _binop_and(a, b):
-    from .c18_sem import _binop18
-    return _binop18(ast.BinOp(left=None, op=ast.BitAnd(), right=None), a, b, None)
+def _truth_table(v, A, B):
+    """value of the mask expression v for (A, B) = (0,0), (0,1), (1,0), (1,1), or None when v is not built from A, B, ~, &, |, ^, A[~B]"""
+    def ev(x, a, b):
+        if same(x, A):
+            return a
+        if same(x, B):
+            return b
+        u = unfn_m(x)
+        if u is None:
+            return None
+        nm, args = u
+        vals = [ev(y, a, b) for y in args if not isinstance(y, str)]
+        if any(t is None for t in vals):
+            return None
+        if nm == "invert" and len(vals) == 1:
+            return not vals[0]
+        if nm == "mask:BitAnd" and len(vals) == 2:
+            return vals[0] and vals[1]
+        if nm == "mask:BitOr" and len(vals) == 2:
+            return vals[0] or vals[1]
+        if nm == "mask:BitXor" and len(vals) == 2:
+            return vals[0] != vals[1]
+        if nm == "idx" and len(vals) == 2:
+            return vals[0] and vals[1]          # X[mask].any(): some element selected by the mask is true
+        return None
+    out = tuple(ev(v, a, b) for a, b in ((False, False), (False, True), (True, False), (True, True)))
+    return None if any(t is None for t in out) else out
 
 
 # ------------------------------------------------------------------------------------------------------------------
@@ -1229,37 +1246,52 @@ def r5_index2slice(ctx):
         ctx.check(bad is None, "index2slice: slice(pv[0], stop, step) is returned only for evenly spaced entries (all differences == step != 0)",
                   (bad.ret_node if bad else None) or fn, None if bad is None else {"regime": bad.describe(), "returned": _show(bad.ret)})
     # stop of a run: last + step, None exactly when that is negative
+    def bound_on(p, S):
+        """what the tests of path p say about the integer S: ('<=', m) / ('>=', m) from comparisons of S with a constant, else None"""
+        out = None
+        for c, d, _ in p.atoms():
+            g = app(c, "cmp:Gt") if c is not None else None
+            if not g:
+                continue
+            if same(g[1], S) and const_of(g[0]) is not None:          # k > S
+                k = const_of(g[0])
+                out = ("<=", k - 1) if d else (">=", k)
+            elif same(g[0], S) and const_of(g[1]) is not None:        # S > k
+                k = const_of(g[1])
+                out = (">=", k + 1) if d else ("<=", k)
+        return out
+
     bad, odd = None, None
     for p, (a, b, st) in runs:
         S = last + st
-        neg = p.decided(F.fn("cmp:Gt", F.const(0), S))
-        if neg is None:
-            t = p.decided(F.fn("cmp:Gt", S, F.const(-1)))
-            neg = None if t is None else (not t)
+        known = bound_on(p, S)
         if sym_of(b) == "None":
-            good = neg is True
+            good = known == ("<=", -1)
         elif same(b, S):
-            good = neg is False
+            good = known == (">=", 0)
         else:
-            good, neg = False, False
+            good, known = False, ("other stop", _show(b))
         if not good:
-            if neg is None and on(p, S) and p.decided(F.fn("cmp:Gt", S, F.const(0))) is None:
+            if known is None and on(p, S):
                 odd = p
             else:
-                bad = p
+                bad = (p, known)
     if bad is None and odd is not None:
         ctx.error("index2slice: test on the stop of a run not recognised", odd.ret_node, odd.describe())
     else:
         ctx.check(bad is None, "index2slice: the stop of a run is last + step, replaced by None exactly when it is negative (0 stays 0)",
-                  (bad.ret_node if bad else None) or fn, None if bad is None else {"regime": bad.describe(), "returned": _show(bad.ret),
-                                                                                   "consequence": "slice(2, None, -1) also selects element 0 for pv = [2, 1]"})
+                  (bad[0].ret_node if bad else None) or fn,
+                  None if bad is None else {"regime": bad[0].describe(), "returned": _show(bad[0].ret), "the tests say about stop": list(bad[1] or ["nothing"]),
+                                            "consequence": "slice(2, None, -1) also selects element 0 for pv = [2, 1]; a negative stop counts from the end"})
     # single entry: slice(i, i + 1), None exactly when i + 1 == 0
     bad = None
     for p, (a, b) in singles:
         z = p.decided(F.fn("cmp:Eq", a + 1, F.const(0)))
         if z is None:
             z = p.decided(F.fn("cmp:Eq", a, F.const(-1)))
-        good = same(a, first) and ((sym_of(b) == "None" and z is True) or (same(b, a + 1) and z is False))
+        orn = app(b, "bool:Or")         # `stop or None`
+        good = same(a, first) and ((sym_of(b) == "None" and z is True) or (same(b, a + 1) and z is False)
+                                   or (bool(orn) and len(orn) == 2 and same(orn[0], a + 1) and sym_of(orn[1]) == "None"))
         if not good:
             bad = p
     ctx.check(bad is None, "index2slice: a single entry i gives slice(i, i + 1), with stop None exactly when i == -1", (bad.ret_node if bad else None) or fn,
